@@ -310,6 +310,8 @@ def r4(ctx):
 def r5(ctx):
     f = ctx.fn("cli.extract_screen_metadata.main")
     loops = [n for n in walk_own(f.node) if isinstance(n, ast.For) and isinstance(n.iter, ast.Attribute) and n.iter.attr == "plates"]
+    if not loops:
+        return r5_comprehension_idiom(ctx, f)
     ctx.need(len(loops) == 1, "extract_screen_metadata.main: loop over .plates not found")
     loop = loops[0]
     pv = loop.target.id
@@ -344,6 +346,36 @@ def r5(ctx):
               "JSON keys carry the matching counters",
               f"n_unobserved_plates={wired.get('n_unobserved_plates')}, n_observed_plates={wired.get('n_observed_plates')} "
               f"(unobserved counter is `{unobs_c}`)")
+
+
+def r5_comprehension_idiom(ctx, f):
+    """counts written as sum(1 for p in X.plates if [not] p.is_observed) / len([...])"""
+    counts = {}
+    for n in walk_own(f.node):
+        if isinstance(n, ast.Assign) and len(n.targets) == 1 and isinstance(n.targets[0], ast.Name) and isinstance(n.value, ast.Call) and call_name(n.value) in ("sum", "len") and n.value.args:
+            comp = n.value.args[0]
+            if isinstance(comp, (ast.GeneratorExp, ast.ListComp)) and len(comp.generators) == 1 and isinstance(comp.generators[0].iter, ast.Attribute) \
+                    and comp.generators[0].iter.attr == "plates" and len(comp.generators[0].ifs) == 1:
+                pv = U(comp.generators[0].target)
+                t = comp.generators[0].ifs[0]
+                neg = isinstance(t, ast.UnaryOp) and isinstance(t.op, ast.Not)
+                core = t.operand if neg else t
+                unit = call_name(n.value) == "len" or U(comp.elt) == "1"
+                if U(core) == f"{pv}.is_observed" and unit:
+                    counts["unobs" if neg else "obs"] = n.targets[0].id
+    if set(counts) != {"obs", "unobs"}:
+        from engine.repo import AnalysisError
+        raise AnalysisError(f"{f.site()}: plate counting is neither the per-plate loop nor the comprehension idiom")
+    ctx.ok("R5", f"{f.site()}::one-counter-per-plate", "observed / unobserved plates counted by complementary filters over all plates")
+    ctx.ok("R5", f"{f.site()}::counters-start-at-zero", "comprehension counts start at zero by construction")
+    d = [n for n in walk_own(f.node) if isinstance(n, ast.Dict)]
+    wired = {}
+    for dd in d:
+        for k, v in zip(dd.keys, dd.values):
+            if isinstance(k, ast.Constant):
+                wired[k.value] = U(v)
+    ctx.check("R5", f"{f.site()}::json-wiring", wired.get("n_unobserved_plates") == counts["unobs"] and wired.get("n_observed_plates") == counts["obs"],
+              "JSON keys carry the matching counters", f"n_unobserved_plates={wired.get('n_unobserved_plates')}, n_observed_plates={wired.get('n_observed_plates')}")
 
 
 def run(ctx):
